@@ -1,6 +1,6 @@
 (* C14 — the decision tree of xsl:attribute with a namespace attribute, one step, every state:
-   if the step raises no hazard, the attribute it adds carries a prefix that the result-namespace
-   stack resolves to the requested URI. *)
+   if the step raises no hazard (only K17 is left), the attribute it adds carries a prefix that the
+   result-namespace stack resolves to the requested URI. *)
 From Coq Require Import List NArith Bool Lia ZifyBool ZifyNat ZifyN.
 Require Import XV.GenNsfix XV.NsfixDefs XV.NsfixModel.
 Import ListNotations.
@@ -71,6 +71,30 @@ Proof. intros. apply add_result_attr_hz. Qed.
 Lemma plain_not_xmlns : forall a, plain_atom a = true -> a <> AXmlns.
 Proof. intros a H E. subst. discriminate. Qed.
 
+Lemma keep_case : forall s p L u v, stk s <> [] -> plain_atom p = true ->
+  hz (emit_attr (declare_prefix s p u) (Some p, L) v (u, L)) = hz s ->
+  exists q, In (mkAttr (Some q, L) v (u, L)) (pattrs (emit_attr (declare_prefix s p u) (Some p, L) v (u, L)))
+            /\ ns_for_prefix (stk (emit_attr (declare_prefix s p u) (Some p, L) v (u, L))) (Some q) = Some u.
+Proof.
+  intros s p L u v Hk Hp H.
+  rewrite <- (declare_prefix_hz s p u) in H.
+  apply emit_attr_plain_spec in H; [|apply decl_prefix_prefixed, plain_not_xmlns; assumption].
+  destruct H as [Hin Hst]. exists p. split; [exact Hin|]. rewrite Hst.
+  apply declare_prefix_resolves; assumption.
+Qed.
+
+Lemma gen_case : forall s L u v, stk s <> [] ->
+  hz (let (g, s1) := gen_unique s in emit_attr (declare_prefix s1 g u) (Some g, L) v (u, L)) = hz s ->
+  exists q, In (mkAttr (Some q, L) v (u, L))
+               (pattrs (let (g, s1) := gen_unique s in emit_attr (declare_prefix s1 g u) (Some g, L) v (u, L)))
+            /\ ns_for_prefix (stk (let (g, s1) := gen_unique s in emit_attr (declare_prefix s1 g u) (Some g, L) v (u, L)))
+                 (Some q) = Some u.
+Proof.
+  intros s L u v Hk. destruct (gen_unique s) as [g s1] eqn:G. apply gen_unique_spec in G.
+  destruct G as (_ & Hs1 & _ & _ & _ & Hh1 & n & -> & _ & _). intro H.
+  rewrite <- Hh1 in H. apply keep_case in H; auto. rewrite Hs1. assumption.
+Qed.
+
 Lemma attr_new_decl_step : forall s P L u v,
   stk s <> [] ->
   match P with None => True | Some a => plain_atom a = true end ->
@@ -79,36 +103,16 @@ Lemma attr_new_decl_step : forall s P L u v,
             /\ ns_for_prefix (stk (attr_new_decl s P L u v (u, L))) (Some q) = Some u.
 Proof.
   intros s P L u v Hk HP. unfold attr_new_decl.
-  set (ku := match P with
-             | Some AXmlns => None
-             | Some p => match ns_for_prefix (stk s) (Some p) with
-                         | Some w => if negb (N.eqb w u) && is_pending_prefix s p then None else Some p
-                         | None => Some p
-                         end
-             | None => None
-             end).
-  assert (Hku : forall p, ku = Some p -> plain_atom p = true).
-  { subst ku. intros p. destruct P as [a|]; [|discriminate].
-    destruct a; simpl in HP; try discriminate;
-      (destruct (ns_for_prefix (stk s) (Some _)) as [w|];
-       [destruct (negb (N.eqb w u) && is_pending_prefix s _)|]; intro E; inversion E; reflexivity). }
-  destruct ku as [p|] eqn:Eku.
-  - specialize (Hku p eq_refl).
-    assert (Hb : match p with AXml => negb (N.eqb u uXML) | _ => false end = false)
-      by (destruct p; simpl in Hku; try discriminate; reflexivity).
-    cbv zeta. rewrite Hb. unfold add_hz_if. intro H.
-    rewrite <- (declare_prefix_hz s p u) in H.
-    apply emit_attr_plain_spec in H; [|apply decl_prefix_prefixed, plain_not_xmlns; assumption].
-    destruct H as [Hin Hst]. exists p. split; [exact Hin|]. rewrite Hst.
-    apply declare_prefix_resolves; assumption.
-  - destruct (gen_unique s) as [g s1] eqn:G. apply gen_unique_spec in G.
-    destruct G as (_ & Hs1 & _ & _ & _ & Hh1 & n & -> & _ & _). cbv zeta. intro H.
-    rewrite <- Hh1 in H. rewrite <- (declare_prefix_hz s1 (AGen n) u) in H.
-    apply emit_attr_plain_spec in H; [|reflexivity].
-    destruct H as [Hin Hst]. exists (AGen n). split; [exact Hin|]. rewrite Hst.
-    apply declare_prefix_resolves; [rewrite Hs1; assumption | reflexivity].
+  destruct P as [a|]; [|apply gen_case; assumption].
+  destruct a; simpl in HP; try discriminate; cbn [atom_eqb andb];
+    (destruct (ns_for_prefix (stk s) (Some _)) as [w|];
+     [destruct (negb (N.eqb w u) && is_pending_prefix s _)|];
+     cbv zeta; first [apply gen_case; assumption | apply keep_case; [assumption | reflexivity]]).
 Qed.
 
+(* the attribute clause of the property for one xsl:attribute with a namespace attribute: in any
+   state with a pending element, unless the instruction raises the duplicate-expanded-name hazard
+   (K17), the attribute it adds has a prefix that the stack resolves to the requested URI *)
 Lemma attr_namespace_step : forall s P L u sns v,
   pend s <> None -> stk s <> [] -> u <> 0 -> u <> uXMLNS ->
   match P with None => True | Some a => plain_atom a = true end ->
@@ -120,24 +124,13 @@ Proof.
   unfold exec_attr. cbv beta zeta iota delta [fst snd].
   assert (Hreq : req_attr (P, L) (Some u) sns = (u, L)) by reflexivity. rewrite Hreq.
   destruct (pend s) as [pe|] eqn:Epend; [|contradiction].
-  change (add_hz_if false HLeak s) with s.
   assert (Hu0 : N.eqb u 0 = false) by (apply N.eqb_neq; assumption). rewrite Hu0.
-  destruct (prefix_for_ns (stk s) u) as [[q|]|] eqn:Efound.
-  - destruct (match P with None => true | Some p => atom_eqb p q end) eqn:Euse.
-    + destruct (ns_for_prefix (stk s) (Some q)) as [w|] eqn:Eq.
-      * destruct (N.eqb w u) eqn:Ew.
-        -- apply N.eqb_eq in Ew. subst w. cbn [negb]. unfold add_hz_if. intro H.
-           assert (Hq : q <> AXmlns).
-           { intro E. subst q. simpl in Eq. inversion Eq. congruence. }
-           apply emit_attr_plain_spec in H; [|apply decl_prefix_prefixed; assumption].
-           destruct H as [Hin Hst]. exists q. split; [exact Hin|]. rewrite Hst. exact Eq.
-        -- cbn [negb]. unfold add_hz_if. intro H. exfalso.
-           destruct (emit_attr_hz_mono (add_hz s HShadow) (Some q, L) v (u, L)) as [l Hl].
-           rewrite Hl in H. cbn [hz add_hz] in H. eapply app_cons_neq_self. exact H.
-      * unfold add_hz_if. intro H. exfalso.
-        destruct (emit_attr_hz_mono (add_hz s HShadow) (Some q, L) v (u, L)) as [l Hl].
-        rewrite Hl in H. cbn [hz add_hz] in H. eapply app_cons_neq_self. exact H.
-    + apply attr_new_decl_step; assumption.
-  - apply attr_new_decl_step; assumption.
-  - apply attr_new_decl_step; assumption.
+  destruct (prefix_for_ns (stk s) u) as [[q|]|] eqn:Efound; try (apply attr_new_decl_step; assumption).
+  destruct (match P with None => true | Some p => atom_eqb p q end) eqn:Euse;
+    [|apply attr_new_decl_step; assumption].
+  apply prefix_for_ns_sound in Efound. intro H.
+  assert (Hq : q <> AXmlns).
+  { intro E. subst q. simpl in Efound. inversion Efound. congruence. }
+  apply emit_attr_plain_spec in H; [|apply decl_prefix_prefixed; assumption].
+  destruct H as [Hin Hst]. exists q. split; [exact Hin|]. rewrite Hst. exact Efound.
 Qed.
